@@ -79,7 +79,7 @@ impl Printer {
         println!("Memory state before step {} for the context {}:", self.clk, self.ctx);
 
         // print the main part of the memory (wihtout the last value)
-        for (addr, value) in mem.iter().take(mem.len() - 1) {
+        for (addr, value) in mem.iter().take(mem.len().saturating_sub(1)) {
             print_mem_address(*addr as u32, Some(*value), false, false, padding);
         }
 
